@@ -253,12 +253,21 @@ func genAztec(r *rng, p Profile) Call {
 			c.I2 = r.rangeIn(1, 32)
 		}
 	}
+	if r.chance(0.04) {
+		c.I2 = []int{-5, 33, 100, -100}[r.intn(4)] // outside the documented range: must fail cleanly
+	}
+	if r.chance(0.03) {
+		c.I1 = []int{-1, -50, 101, 1000}[r.intn(4)]
+	}
 	return c
 }
 
 func genPDF(r *rng, p Profile) Call {
 	n := r.length(p.MaxLen)
 	c := Call{Fn: "pdf417", I1: r.intn(9)}
+	if r.chance(0.04) {
+		c.I1 = []int{9, 10, 100, 255}[r.intn(4)]
+	}
 	switch r.intn(4) {
 	case 0:
 		c.B = r.str(digits, n)
@@ -473,6 +482,16 @@ func genScale(r *rng, p Profile, src Call) Call {
 	}
 	if r.chance(0.3) {
 		c.Fill = r.rangeIn(1, 200)
+	}
+	switch x := r.intn(100); {
+	case x < 3:
+		c.I1 = []int{0, -1, -100}[r.intn(3)]
+	case x < 5:
+		c.I2 = []int{0, -1}[r.intn(2)]
+	case x < 7:
+		c.I1, c.I2 = r.rangeIn(300, 900), r.rangeIn(1, 4) // wide and flat
+	case x < 8:
+		c.Fill = -1 // nil fill colour
 	}
 	return c
 }
